@@ -34,6 +34,20 @@ ExplainsOrf(cfg, c, r) ==
               \A i \in 1..Len(r.v) :
                   /\ OrfReportOkFr(fr, cfg.min_len, r.v[i].h \o r.v[i].a)
                   /\ OrfReportOkFr(fr, cfg.min_len, r.v[i].h \o r.v[i].b)
+         \* one iterator consumed through count / last / nth / skip / step_by (relative to its own collect(),
+         \* which must be a correct report) and fed from by-value / owned / filtered / flat-mapped input
+         [] c.op = "iters" ->
+              LET fr == FramesFast(c.a.t, SetOf(cfg.starts), SetOf(cfg.stops))
+                  all == r.all
+                  n == Len(all)
+              IN  /\ OrfReportOkFr(fr, cfg.min_len, all)
+                  /\ r.count = n
+                  /\ r.last = (IF n = 0 THEN << >> ELSE << all[n] >>)
+                  /\ r.nth1 = (IF n < 2 THEN << >> ELSE << all[2] >>)
+                  /\ r.skip1 = SubSeq(all, 2, n)
+                  /\ r.step2 = [i \in 1..((n + 1) \div 2) |-> all[2 * i - 1]]
+                  /\ OrfReportOkFr(fr, cfg.min_len, r.byval) /\ OrfReportOkFr(fr, cfg.min_len, r.owned)
+                  /\ OrfReportOkFr(fr, cfg.min_len, r.filt) /\ OrfReportOkFr(fr, cfg.min_len, r.flat)
          [] OTHER -> FALSE
 
 Pairs(mol) == IF mol = "rna" THEN RnaPairs ELSE DnaPairs
@@ -42,6 +56,9 @@ ExplainsCompl(cfg, c, r) ==
     /\ r.st = "ok"
     /\ CASE c.op = "table"   -> r.v = CompTable(Pairs(cfg.mol))
          [] c.op = "revcomp" -> r.v = RevComp(Pairs(cfg.mol), c.a.t)
+         \* revcomp fed from by-value / owned / filtered / chained iterators
+         [] c.op = "revcomp_variants" ->
+              Len(r.v) >= 1 /\ \A i \in 1..Len(r.v) : r.v[i] = RevComp(Pairs(cfg.mol), c.a.t)
          [] OTHER -> FALSE
 
 ExplainsAlpha(cfg, c, r) ==
@@ -55,6 +72,23 @@ ExplainsAlpha(cfg, c, r) ==
          [] c.op = "is_word"    -> r.v = Bool(IsWord(A, c.a.t))
          [] c.op = "ranks"      -> r.v = [i \in 1..Len(cfg.syms) |-> RankOf(A, cfg.syms[i])]
          [] c.op = "transform"  -> r.v = [i \in 1..Len(c.a.t) |-> RankOf(A, c.a.t[i])]
+         \* Alphabet::new from other kinds of iterators (duplicates, inexact size hints, by value), clone
+         [] c.op = "new_variants" -> Len(r.v) >= 1 /\ \A i \in 1..Len(r.v) : ListsSet(r.v[i], A)
+         \* set operations in both orders / groupings, insert in another order
+         [] c.op = "setops_orders" ->
+              LET B == Members(c.a.other)  C == Members(c.a.third) IN
+              /\ ListsSet(r.uab, A \cup B) /\ ListsSet(r.uba, A \cup B)
+              /\ ListsSet(r.iab, A \cap B) /\ ListsSet(r.iba, A \cap B)
+              /\ ListsSet(r.u3a, A \cup B \cup C) /\ ListsSet(r.u3b, A \cup B \cup C)
+              /\ ListsSet(r.ins, A) /\ ListsSet(r.ins2, A \cup B)
+              /\ ListsSet(r.dab, A \ B) /\ ListsSet(r.dba, B \ A)
+         \* a rank transform of the alphabet collected from a text (with repetitions)
+         [] c.op = "ranks_via_text" ->
+              r.v = [i \in 1..Len(c.a.t) |-> RankOf(Members(c.a.t), c.a.t[i])]
+         \* is_word / transform fed from by-value / filtered iterators; rank transform copied (clone, serde)
+         [] c.op = "word_variants" ->
+              /\ Len(r.w) >= 1 /\ \A i \in 1..Len(r.w) : r.w[i] = Bool(IsWord(A, c.a.t))
+              /\ \A i \in 1..Len(r.tr) : r.tr[i] = [j \in 1..Len(c.a.t) |-> RankOf(A, c.a.t[j])]
          [] c.op = "setops"     -> LET B == Members(c.a.other) IN
                                    /\ ListsSet(r.u, A \cup B)
                                    /\ ListsSet(r.i, A \cap B)
@@ -71,6 +105,10 @@ ExplainsGc(cfg, c, r) ==
     /\ r.st = "ok"
     /\ CASE c.op = "gc"  -> GcOk(c.a.t, 1, r.g)
          [] c.op = "gc3" -> GcOk(c.a.t, 3, r.g)
+         \* gc / gc3 fed from by-value / owned / filtered / flat-mapped / take_while iterators
+         [] c.op = "gc_variants" ->
+              /\ Len(r.g) >= 1 /\ \A i \in 1..Len(r.g) : GcOk(c.a.t, 1, r.g[i])
+              /\ \A i \in 1..Len(r.g3) : GcOk(c.a.t, 3, r.g3[i])
          \* the sequence is `reps` repetitions of `unit` (never logged verbatim)
          [] c.op = "gc_rep"  -> c.a.reps >= 0 /\ GcRepOk(c.a.unit, c.a.reps, 1, r.g)
          \* segments unit_i^(m_i * chunk), streamed: up to more than 2^32 symbols in one call
